@@ -219,8 +219,10 @@ let spec_line f =
                  then bad := "reserved-without-handle" :: !bad
              | _ -> ())
         | None -> ()) rest;
-      if (try ignore (Str.search_forward (Str.regexp_string "panic") line 0); true with Not_found -> false)
-      then bad := "panic" :: !bad;
+      let contains s sub =
+        let n = String.length s and m = String.length sub in
+        let rec go i = i + m <= n && (String.sub s i m = sub || go (i + 1)) in go 0 in
+      if contains line "panic" || contains line "PANIC" then bad := "panic" :: !bad;
       (match List.filter (fun t -> String.length t > 3 && String.sub t 0 3 = "ev=") rest with
        | [t] ->
            let v = String.sub t 3 (String.length t - 3) in
